@@ -156,6 +156,9 @@ func (s *SimSigner) Fn() func(io.Reader) ([]byte, error) {
 			}
 			s.Calls = append(s.Calls, got)
 			s.Failed++
+			if s.Fault.WithBytes {
+				return []byte("-----BEGIN PGP SIGNATURE-----\n\niQEzBAABCAAdFiEE (output cut off: the signer was killed)"), ErrSignerSentinel
+			}
 			return nil, ErrSignerSentinel
 		}
 		data, err := io.ReadAll(r)
